@@ -24,6 +24,7 @@ def main():
     prop = a.prop.upper()
     mod = importlib.import_module(prop.lower())
     chk = checklib.Check(prop, a.tier, seed)
+    chk.replaying = bool(a.replay)
     try:
         mod.run(chk, a.tier, seed, replay=a.replay)
         rc = chk.finish()
